@@ -627,6 +627,15 @@ pub fn search(pid: &str, _obligations: &[String]) -> Option<String> {
     }
     None
 }
+/// run one named search (bounded stand-in for a clause that is not under contract)
+pub fn search_named(name: &str) -> (usize, Option<String>) {
+    let mut n = 0;
+    if let Some(s) = SEARCHES.iter().find(|s| s.name == name) {
+        for p in (s.g)() { n += 1;
+            if let Some(msg) = std::panic::catch_unwind(|| (s.f)(&p)).unwrap_or(None) { return (n, Some(to_json(s.name, &p, &msg))); } }
+    }
+    (n, None)
+}
 pub fn replay(w: &str) -> Option<String> {
     let name = w.split("\"search\":\"").nth(1)?.split('"').next()?.to_string();
     let params: P = w.split("\"params\":[").nth(1)?.split(']').next()?.split(',').filter(|s| !s.trim().is_empty()).filter_map(|s| s.trim().parse().ok()).collect();
